@@ -4,8 +4,11 @@ PROP = dict(
         module="IocProofs.C19",
         level_text="Totality (no panic, every slice in range) is proved for EVERY byte string and faithfulness for every well-formed "
                    "structured tag, as Lean theorems about a model of strings2.Index/Split, TagArg.Parse/Set/Has and the tag scanner's Required default that mirrors the Go "
-                   "loops (a scanner, whatever its Required field, leaves required-ness as the tag text states it: C19_scan_only_explicit_false); the model is tied to the real NewProperty and the real scanner by a differential run on tens of thousands of generated tags per run.",
-        level_note="Modelled, not verified: strings.Index/Count/ToUpper, Go slicing, reflect.StructTag.Lookup.",
+                   "loops (a scanner, whatever its Required field, leaves required-ness as the tag text states it: C19_scan_only_explicit_false; the parser never stores an "
+                   "empty item list, so the args[0] of Property.Unmarshall is in range for every tag text, and the first item of timeLayout reaches time.Parse as written: "
+                   "C19_parsed_items_nonempty, C19_unmarshall_total, C19_layout_as_written, C19_layout_roundtrip); the model is tied to the real NewProperty and the real scanner by a differential run on tens of thousands of generated tags per run.",
+        level_note="Modelled, not verified: strings.Index/Count/ToUpper, Go slicing, reflect.StructTag.Lookup; time.Parse for layouts over the chunks 2006 01 02 15 04 05 "
+                   "(other layouts: oracle only) and mapstructure's choice of the key by TagName.",
         subs=[dict(sub="tag", n_quick=60000, n_thorough=1500000)],
         thorough_seeds=3,
         rule="tag strings: 36% generated from the grammar (value x 0-5 arguments x bracketed groups), 36% arbitrary bytes "
@@ -20,10 +23,22 @@ PROP = dict(
              "registries (30%), or through two real applications in the process with a user post-processor doing the edits (5%, wire point "
              "nobody can fill: start outcome observed); oracle tag-history: B equals what the same route gave before the edits and what the "
              "harness' own reader (tagReadOwn) reads off the text; tag-history-start: the second application starts iff the text says "
-             "required=false; a case is non-trivial when it "
+             "required=false; after the main stream (seventh round) n/12 LOOKUPS (scenario F: structured tags, tags whose arguments are written without a value or "
+             "with repeated blanks - empty items -, the forms of required-ness, arbitrary bytes; Args().Find / Has for every stored name in both first-letter cases and for "
+             "mapper / timeLayout / required / Qualifier; oracle tag-find: Find yields exactly the items the text has, empty ones included) and n/20 BINDINGS (scenario B: "
+             "a field tagged prefix:\"<text>\" scanned by the real prefix scanner, then Property.Unmarshall; half around timeLayout on a time.Time field - layouts over the "
+             "chunks 2006 01 02 15 04 05 with separators, plain / wrapped in [] () {} with blanks and commas inside / bracket at the head or tail / two groups / nested / an "
+             "unbracketed blank (two items) / layouts with names (oracle only); the argument bare, `name=`, absent, written twice; the text formatted with the layout, a sixth "
+             "damaged -, half around mapper on a struct whose yaml / json / toml / mapstructure tags give different keys; an eighth end to end through app.Run with a raw YAML "
+             "document, prefix and value route; oracles tag-bind-panic (a legal tag never makes a consumer panic), tag-timelayout / tag-mapper (a one-item argument reaches "
+             "time.Parse / mapstructure as written: the binding equals what the consumer gives for the item itself)); a case is non-trivial when it "
              "contains an argument, a bracket, or a separator; distinct = distinct scenario lines",
         trusted_base=COMMON_TB + ["strings.Index/Count/ToUpper and Go slice semantics as modelled in Ioc.Tag (validated by the correspondence)",
-                                  "reflect.StructTag.Lookup for the prop shorthand path and the scanner paths"],
+                                  "reflect.StructTag.Lookup for the prop shorthand path and the scanner paths",
+                                  "time.Parse (Go 1.23) restricted to literal bytes and the chunks 2006 01 02 15 04 05, and mapstructure v1.5.0's TagName handling, as modelled in "
+                                  "Ioc.Tag (validated by the correspondence); the consumer oracles use time.Parse and mapstructure themselves as the reference"],
         assumptions=["faithfulness (round-trip) is claimed for bracket-balanced, well-formed tags only, as the property's quantifier says; totality for all byte strings",
-                     "separators are the single bytes ',', '=', ' ' (constants of arg.go)"],
+                     "separators are the single bytes ',', '=', ' ' (constants of arg.go)",
+                     "an argument with several items (timeLayout=2006-01-02 15:04: the blank separates two items) is left to the model, which has the library's args[0]; the "
+                     "consumer oracles claim one-item arguments only"],
     )
